@@ -7,7 +7,7 @@ import z3
 
 from . import ops
 from .ops import Unsupported, TRUE, FALSE
-from .types import (TInt, TReal, TBool, TStr, TNone, TList, TTuple, TDict, TOpt, TGraph, TOpaque, TRecord,
+from .types import (TInt, TReal, TBool, TStr, TNone, TList, TTuple, TDict, TDefaultDict, TOpt, TGraph, TOpaque, TRecord,
                     Val, lift, fresh, fresh_name, parse_type)
 from . import heap as H
 from . import contract as C
@@ -240,6 +240,24 @@ def get_item(eng, st, base, key, node, spec=False):
         v, safe = ops.str_index(base, ops.to_int(key))
         eng.safety(st, safe, node, 'str-index', spec)
         return v
+    if isinstance(ty, TDefaultDict) and not spec:
+        # d[k] on a defaultdict(list): a missing key is inserted with a fresh empty list
+        has = ops.dict_has(base, key)
+        empty = ops.list_literal(ty.val, [])
+        filled = ops.dict_set(base, key, empty)
+        nb = Val(ty, z3.If(has, base.t, filled.t), loc=base.loc)
+        tgt = node.value if isinstance(node, ast.Subscript) else None
+        if tgt is not None:
+            eng.write_back(tgt, nb, st, node)
+        base = nb
+        v = Val(ty.val, ty.valmap(nb.t)[ops.coerce(key, ty.key).t])
+
+        def writer(st2, newv, base=base, key=key, tgt=tgt):
+            nb2 = ops.dict_set(base, key, newv)
+            nb2.loc = base.loc
+            eng.write_back(tgt, nb2, st2, node)
+        v.loc = writer
+        return v
     if isinstance(ty, TDict):
         v, safe = ops.dict_get(base, key)
         eng.safety(st, safe, node, 'dict-key', spec)
@@ -363,6 +381,9 @@ def contains(eng, st, container, x, node, spec=False):
         return z3.Or(*[ops.equal(lift(i), lift(x)) for i in container.items]) if container.items else FALSE
     if isinstance(container, PyDictConst):
         return z3.Or(*[ops.equal(lift(k), lift(x)) for k in container.d])
+    if isinstance(container, Val) and isinstance(container.ty, TOpt):
+        eng.safety(st, z3.Not(container.ty.is_none(container.t)), node, 'membership-in-None', spec)
+        container = Val(container.ty.inner, container.ty.get(container.t))
     return ops.contains(container, x)
 
 
@@ -433,6 +454,8 @@ def call(eng, st, node, allow_raise):
             con = C.lookup(canon)
         if con is not None:
             return apply_contract(eng, st, node, con, allow_raise)
+        if canon in RAISING_MODELS:
+            return RAISING_MODELS[canon](eng, st, node, allow_raise)
         fn = CANON_MODELS.get(canon)
         if fn is None:
             raise Unsupported('call to %s has neither a contract nor a model' % canon)
@@ -630,16 +653,20 @@ def spec_call(eng, st, e, old):
             a = ops.truthy(eng.ev(e.args[0], st, True, old))
             b = ops.truthy(eng.ev(e.args[1], st, True, old))
             return Val(TBool, z3.Implies(a, b))
-        if n == 'forall_int' or n == 'exists_int':
-            # forall_int(lambda n: body)
-            lam = e.args[0]
+        if n in ('forall_int', 'exists_int', 'forall_typed'):
+            # forall_int(lambda n: body) / forall_typed('Str,Int', lambda b, n: body)
+            lam = e.args[-1]
             names = [a.arg for a in lam.args.args]
-            vs = [z3.Int(fresh_name(x)) for x in names]
+            if n == 'forall_typed':
+                tys = [parse_type(t) for t in e.args[0].value.split(',')]
+            else:
+                tys = [TInt] * len(names)
+            vs = [z3.Const(fresh_name(x), t.sort()) for x, t in zip(names, tys)]
             sub = st.copy()
             saved_q = dict(eng.qenv)
-            for x, v in zip(names, vs):
-                sub.env[x] = Val(TInt, v)
-                eng.qenv[x] = Val(TInt, v)
+            for x, v, t in zip(names, vs, tys):
+                sub.env[x] = Val(t, v)
+                eng.qenv[x] = Val(t, v)
             n_before = len(eng.bound_names)
             eng.bound_names.extend(v.decl().name() for v in vs)
             try:
@@ -650,7 +677,7 @@ def spec_call(eng, st, e, old):
                 eng.qenv.update(saved_q)
             for extra in sub.pc[len(st.pc):]:
                 st.assume(extra)
-            return Val(TBool, z3.ForAll(vs, body) if n == 'forall_int' else z3.Exists(vs, body))
+            return Val(TBool, z3.Exists(vs, body) if n == 'exists_int' else z3.ForAll(vs, body))
         if n in eng.spec_funcs:
             args = [eng.ev(a, st, True, old) for a in e.args]
             args = [a if not isinstance(a, (int, float, str, bool)) else lift(a) for a in args]
@@ -688,6 +715,8 @@ def quantifier(eng, st, gen, kind, old, spec=True):
                 comp.iter.func.id in ('nodes', 'keys', 'edge_list') and comp.iter.func.id not in sub.env:
             kindname = comp.iter.func.id
             arg = eng.ev(comp.iter.args[0], sub, spec, old)
+            if isinstance(arg, Val) and isinstance(arg.ty, TOpt):
+                arg = Val(arg.ty.inner, arg.ty.get(arg.t))
             if kindname == 'nodes':
                 v = z3.Int(fresh_name('qn'))
                 bound.append(v)
@@ -780,6 +809,9 @@ def b_len(eng, st, node, spec=False, old=None):
     if isinstance(v, PyList):
         return lift(len(v.items))
     v = lift(v)
+    if isinstance(v.ty, TOpt):
+        eng.safety(st, z3.Not(v.ty.is_none(v.t)), node, 'len-of-None', spec)
+        v = Val(v.ty.inner, v.ty.get(v.t))
     if isinstance(v.ty, TList):
         return Val(TInt, ops.list_len(v))
     if isinstance(v.ty, TDict):
@@ -973,9 +1005,11 @@ def b_iter(eng, st, node, spec=False, old=None):
 def b_sum(eng, st, node, spec=False, old=None):
     v = eng.ev(node.args[0], st, spec, old)
     d = getattr(v, 'values_of', None)
+    from . import speclib
     if d is not None:
-        from . import speclib
         return speclib.SPEC_FUNCS['dvsum'].smt(eng, st, d, Val(TInt, ops.dict_len(d)))
+    if isinstance(v, Val) and isinstance(v.ty, TList) and v.ty.elem in (TReal, TInt):
+        return speclib.SPEC_FUNCS['lsum'].smt(eng, st, v, Val(TInt, ops.list_len(v)))
     raise Unsupported('sum over %s' % type(v).__name__)
 
 
@@ -1331,7 +1365,68 @@ def m_np_zeros(eng, st, node):
     return Val(TReal, z3.RealVal(0))
 
 
+def m_defaultdict(eng, st, node):
+    return empty_container(eng, st, node, 'dict')
+
+
+def m_np_array(eng, st, node):
+    eng.assumptions.add('numpy arrays of numbers are treated as lists of mathematical reals (elementwise arithmetic)')
+    v = eng.ev(node.args[0], st)
+    return v
+
+
+def m_random_choice(eng, st, node, allow_raise=False):
+    """random.choice(seq): some element of seq (IndexError when empty).  Trusted: the draw is arbitrary."""
+    eng.assumptions.add('random.choice returns an element of its argument (IndexError on an empty sequence); the draw itself is unconstrained')
+    seq = as_sequence(eng, st, eng.ev(node.args[0], st), node)
+    outs = []
+    if allow_raise:
+        r = st.copy()
+        r.assume(seq.length == 0)
+        r.flow, r.exc = 'raise', 'IndexError'
+        outs.append((r, None))
+        st.assume(seq.length > 0)
+    else:
+        eng.safety(st, seq.length > 0, node, 'choice-of-empty')
+    j = z3.Int(fresh_name('choice'))
+    st.assume(0 <= j, j < seq.length)
+    outs.append((st, seq.getter(j)))
+    return outs
+
+
+def m_random_choices(eng, st, node, allow_raise=False):
+    """random.choices(population, weights=w): a one-element list holding population[j] with w[j] > 0.
+    Raises ValueError when the total weight is not a positive finite number (e.g. 0/0 = nan entries)."""
+    eng.assumptions.add('random.choices(pop, weights=w) returns [pop[j]] for some j with w[j] > 0, or raises ValueError when the '
+                        'weights do not have a positive finite total; the draw itself is unconstrained')
+    pop = lift(eng.ev(node.args[0], st))
+    w = None
+    for k in node.keywords:
+        if k.arg == 'weights':
+            w = lift(eng.ev(k.value, st))
+    if w is None or not isinstance(pop.ty, TList) or not isinstance(w.ty, TList):
+        raise Unsupported('random.choices form')
+    outs = []
+    if not allow_raise:
+        raise Unsupported('random.choices nested in an expression')
+    r = st.copy()
+    r.flow, r.exc = 'raise', 'ValueError'
+    outs.append((r, None))
+    j = z3.Int(fresh_name('choices'))
+    finite = getattr(w, 'finite_cond', None)
+    st.assume(0 <= j, j < ops.list_len(pop), j < ops.list_len(w), ops.list_arr(w)[j] > 0)
+    if finite is not None:
+        st.assume(finite)
+    out_ty = TList(pop.ty.elem)
+    outs.append((st, ops.list_literal(out_ty, [Val(pop.ty.elem, ops.list_arr(pop)[j])])))
+    return outs
+
+
+RAISING_MODELS = {'random.choice': m_random_choice, 'random.choices': m_random_choices}
+
 CANON_MODELS = {
+    'collections:defaultdict': m_defaultdict,
+    'numpy.array': m_np_array,
     'networkx.Graph': m_nx_graph,
     'networkx.get_node_attributes': m_get_node_attributes,
     'copy.deepcopy': m_deepcopy,
